@@ -43,7 +43,7 @@ closing tag) at nesting depth 0, 1 and 2 of an established stream, the verdict o
 real reader (regenerated on every run through real sessions) is `verdict` of the model — in
 particular an XML declaration is *not* skipped once the stream is established -/
 theorem C08_gen_verdicts :
-    ∃ t, Generated.C08.readerVerdicts = some t ∧ t.length = 37 ∧
+    ∃ t, Generated.C08.readerVerdicts = some t ∧ t.length = 43 ∧
       ∀ e ∈ t, factVerdict e.1 e.2.1 = some e.2.2 := by
   refine ⟨_, rfl, by decide, by decide⟩
 
@@ -523,5 +523,66 @@ example : closes 0 [Tok.start ⟨"urn:ietf:params:xml:ns:xmpp-streams", "host-go
     seCond [Tok.start ⟨"urn:ietf:params:xml:ns:xmpp-streams", "host-gone"⟩ [],
     .stop ⟨"urn:ietf:params:xml:ns:xmpp-streams", "host-gone"⟩, .stop ⟨nsStream, "error"⟩] = some "host-gone" := by
   decide
+
+/-! ### responses to pending local requests -/
+
+/-- **a response handed to a waiting `SendIQ` caller is skipped as a whole**: for a well-formed
+element of type result / error whose id and name match a pending request, no handler runs,
+nothing is written, the entry leaves the table, and the session's input then stands exactly at
+the token after the element's end tag — however deep the response is nested and whatever part
+of it the waiter read before it closed it (the model does not even look at that): the next
+invocation begins at the next top-level element -/
+theorem C08_response_resync (cfg : Cfg) (pend : List Pend) (rs : RS) (n : Name) (as : List Attr)
+    (body rest : List Tok) (prog : Prog) (p : Pend)
+    (hi : rs.inp = .start n as :: (body ++ rest)) (hn : (n.space != nsStream) = true)
+    (hwf : splitElem 0 body = some (body, [])) (hpl : ∀ t ∈ body, plainTok t = true)
+    (hty : isReplyTyp (getTyp (blankFrom cfg n as)) = true)
+    (hp : pendMatch pend (getId (blankFrom cfg n as)) n = some p) :
+    handleInputStreamP cfg pend rs prog =
+      (.next none [] { inp := rest, dIn := rs.dIn, dOut := 0, sticky := none },
+       pend.filter (fun q => q.id != p.id), some p.id) := by
+  have hsp : splitElem 0 (body ++ rest) = some (body, rest) := by
+    simpa using splitElem_ext body 0 body [] rest hwf
+  have hne := (splitElem_append _ _ _ _ hsp).2
+  have hnext : ({ rs with dOut := 0, sticky := none } : RS).next
+      = (.tok (.start n as), { inp := body ++ rest, dIn := rs.dIn + 1, dOut := 1, sticky := none }) := by
+    simp [RS.next, hi, verdict, hn]
+  have hst : St { rs := { inp := body ++ rest, dIn := rs.dIn + 1, dOut := 1, sticky := none }, cnt := 0, fin := false }
+      body rest rs.dIn 0 := Or.inr ⟨hne, ⟨rfl, rfl, hsp, hpl, by simp, by simp⟩⟩
+  have hlen := hst.len
+  obtain ⟨e'', hdis, hdone⟩ := discard_st _ _ rest rs.dIn 0 ((body ++ rest).length + 2) hst (by simp at hlen ⊢; omega)
+  have hrs : e''.rs = { inp := rest, dIn := rs.dIn, dOut := 0, sticky := none } := by
+    obtain ⟨_, h1, h2, h3, h4⟩ := hdone
+    cases hr : e''.rs
+    simp_all
+  unfold handleInputStreamP deliveredTo
+  rw [hnext]
+  simp only [hty, hp, if_true, Option.map_some]
+  unfold Serve.discard
+  simp only [hdis, hrs]
+
+/-- a handler that returns an error value — nil excepted, every value of the alphabet: a plain
+error, `io.EOF` itself, a stanza or stream error, and errors that wrap or join those — ends the
+session right after its invocation: no later element is handed to a handler and `Serve` does
+not return nil -/
+theorem C08_handler_error_ends (cfg : Cfg) (fuel : Nat) (rs rs1 : RS) (n : Name) (as : List Attr)
+    (progs : List Prog)
+    (hnext : ({ rs with dOut := 0, sticky := none } : RS).next = (.tok (.start n as), rs1))
+    (hret : (progs.headD Prog.nop).ret ≠ .ok) :
+    ∃ inv w e, serveF cfg (fuel + 1) rs progs = { invs := [inv], written := w, result := .error e } := by
+  have hh : handleInputStream cfg rs (progs.headD Prog.nop) = handleElem cfg n as rs1 (progs.headD Prog.nop) := by
+    unfold handleInputStream
+    rw [hnext]
+  obtain ⟨inv, w, e, he⟩ : ∃ inv w e, handleElem cfg n as rs1 (progs.headD Prog.nop) = .stop (some inv) w (.error e) := by
+    unfold handleElem
+    simp only
+    cases hr : (progs.headD Prog.nop).ret
+    case ok => exact absurd hr hret
+    case readErr => simp only; split <;> exact ⟨_, _, _, rfl⟩
+    all_goals exact ⟨_, _, _, rfl⟩
+  refine ⟨inv, w, e, ?_⟩
+  unfold serveF
+  rw [hh, he]
+  rfl
 
 end XmppModel.Props.C08
